@@ -59,6 +59,15 @@ def main(argv):
         print('REPRODUCED' if not ok else 'NOT REPRODUCED (property holds on this input)')
         return 0 if ok else 1
     mod = importlib.import_module(case['module'])
+    if case['kind'] == 'batch':
+        res = getattr(mod, case['func'])(*case['args']) or {}
+        hits = [v for v in res.get('violations', []) if v['detail'] == case['expect_detail']]
+        if hits:
+            print('replay of the whole batch %s%r reproduces: %s' % (case['func'], tuple(case['args']), case['expect_detail']))
+            print('REPRODUCED')
+            return 1
+        print('NOT REPRODUCED (batch re-run does not show the recorded violation)')
+        return 0
     res = getattr(mod, case['func'])(*case['args'])
     if res:
         print('replay %s%r -> %s' % (case['func'], tuple(case['args']), res))
